@@ -59,6 +59,19 @@ func NullLogger() hclog.Logger {
 	return hclog.New(&hclog.LoggerOptions{Level: hclog.Off, Output: io.Discard})
 }
 
+// DebugLogger logs at debug level (into nothing): the code paths that only run when debug logging is on do run
+func DebugLogger() hclog.Logger {
+	return hclog.New(&hclog.LoggerOptions{Level: hclog.Debug, Output: io.Discard})
+}
+
+// LoggerFor alternates between the quiet and the debug-level logger (n: worker / vector number, shifted by the seed)
+func LoggerFor(n int) hclog.Logger {
+	if (n+int(Seed()))%2 == 1 {
+		return DebugLogger()
+	}
+	return NullLogger()
+}
+
 // Server is a running gldap server
 type Server struct {
 	S      *gldap.Server
